@@ -106,9 +106,20 @@ def d4_rewrite_keeps_keys(ctx):
 
 
 def _return_dict(func):
+    """The dictionary a function returns, as an ast.Dict: a literal, a dict(k=v) call, or a local built up by
+    literal / subscript stores / update() (synthesised)."""
     for n in own_nodes(func.node):
-        if isinstance(n, ast.Return) and isinstance(n.value, ast.Dict):
-            return n.value
+        if isinstance(n, ast.Return) and n.value is not None:
+            v = n.value
+            if isinstance(v, ast.Dict):
+                return v
+            if isinstance(v, ast.Call) and dotted(v.func) == 'dict' and not v.args:
+                return ast.Dict(keys=[ast.Constant(value=k.arg) for k in v.keywords if k.arg],
+                                values=[k.value for k in v.keywords if k.arg])
+            if isinstance(v, ast.Name):
+                ent = dict_entries(func.node, v.id)
+                if ent:
+                    return ast.Dict(keys=[ast.Constant(value=k) for k in ent], values=list(ent.values()))
     return None
 
 
@@ -267,10 +278,16 @@ def d5_tables(ctx):
     td = ctx.repo.func('numtype.arrayinfotodtype')
     tab = key = None
     p0 = td.params[0]
+    def _littab(v):
+        if isinstance(v, ast.Dict):
+            return ast.literal_eval(v)
+        if isinstance(v, ast.Call) and dotted(v.func) == 'dict' and not v.args:
+            return {k.arg: ast.literal_eval(k.value) for k in v.keywords}
+        raise ValueError
     for n in own_nodes(td.node):
-        if isinstance(n, ast.Subscript) and isinstance(n.value, ast.Dict):
+        if isinstance(n, ast.Subscript):
             try:
-                tab = ast.literal_eval(n.value)
+                tab = _littab(inline(td, n.value))
                 key = canon(td, n.slice)
             except Exception:
                 pass
@@ -285,7 +302,8 @@ def d5_tables(ctx):
             isinstance(rv.value.func, ast.Attribute) and rv.value.func.attr == 'newbyteorder' and len(rv.value.args) == 1:
         base, bo = rv.value.func.value, rv.value.args[0]
         ok = isinstance(base, ast.Call) and dotted(base.func) in ('np.dtype', 'numpy.dtype') and len(base.args) == 1 and \
-            norm(base.args[0]) == f"{p0}['numtype']" and isinstance(bo, ast.Subscript) and isinstance(bo.value, ast.Dict) and \
+            norm(base.args[0]) == f"{p0}['numtype']" and isinstance(bo, ast.Subscript) and \
+            (isinstance(bo.value, ast.Dict) or (isinstance(bo.value, ast.Call) and dotted(bo.value.func) == 'dict')) and \
             norm(bo.slice) == f"{p0}['byteorder']"
     ctx.decide(ok, 'R-TABLE', 'D5', td, ret[-1] if ret else None, 'dtype-reconstruction',
                'the dtype is rebuilt as np.dtype(<stored numtype>).newbyteorder(<table>[<stored byteorder>]).str', detail=f'{norm(rv) if rv is not None else None}')
@@ -303,28 +321,80 @@ def d5_tables(ctx):
                'the type rows of docs/readcode.rst are the 13 supported names', detail=f'rows {sorted(set(rows))}')
 
 
+class _Unknown:
+    def __repr__(self):
+        return '<unknown>'
+
+
+_UNK = _Unknown()
+
+
 def _eval_straightline(stmts, env):
-    """Evaluate assignments/ifs with foldable tests; return the 'byteorder'
-    entry of the returned dict."""
+    """Abstract evaluation of a small function body over constants: assignments (unfoldable values become
+    <unknown>), dictionary literals / subscript stores / update(), ifs with foldable tests, asserts, expression
+    statements.  Returns the 'byteorder' entry of the returned dictionary; raises _NoFold when that entry (or a
+    test it depends on) is unknown."""
     env = dict(env)
+    dicts = {}
+
+    def val(e):
+        try:
+            v = fold(e, {k: x for k, x in env.items() if x is not _UNK})
+            return v
+        except Exception:
+            return _UNK
+
+    def dictval(e):
+        if isinstance(e, ast.Dict):
+            return {k.value: val(v) for k, v in zip(e.keys, e.values) if isinstance(k, ast.Constant)}
+        if isinstance(e, ast.Call) and dotted(e.func) == 'dict' and not e.args:
+            return {k.arg: val(k.value) for k in e.keywords if k.arg}
+        return None
 
     def run(body):
         for st in body:
-            if isinstance(st, ast.Expr):
+            if isinstance(st, (ast.Expr, ast.Assert, ast.Pass)):
+                if isinstance(st, ast.Expr) and isinstance(st.value, ast.Call) and isinstance(st.value.func, ast.Attribute) \
+                        and st.value.func.attr == 'update' and isinstance(st.value.func.value, ast.Name) \
+                        and st.value.func.value.id in dicts:
+                    d = dicts[st.value.func.value.id]
+                    if st.value.args:
+                        d.update(dictval(st.value.args[0]) or {})
+                    for k in st.value.keywords:
+                        if k.arg:
+                            d[k.arg] = val(k.value)
                 continue
-            if isinstance(st, ast.Assign) and len(st.targets) == 1 and isinstance(st.targets[0], ast.Name):
-                env[st.targets[0].id] = fold(st.value, env)
-            elif isinstance(st, ast.If):
-                r = run(st.body if fold(st.test, env) else st.orelse)
+            if isinstance(st, (ast.Assign, ast.AnnAssign)):
+                tgt = st.targets[0] if isinstance(st, ast.Assign) else st.target
+                if st.value is None:
+                    continue
+                if isinstance(tgt, ast.Name):
+                    dv = dictval(st.value)
+                    if dv is not None:
+                        dicts[tgt.id] = dv
+                        env[tgt.id] = _UNK
+                    else:
+                        env[tgt.id] = val(st.value)
+                elif isinstance(tgt, ast.Subscript) and isinstance(tgt.value, ast.Name) and tgt.value.id in dicts and \
+                        isinstance(tgt.slice, ast.Constant):
+                    dicts[tgt.value.id][tgt.slice.value] = val(st.value)
+                continue
+            if isinstance(st, ast.If):
+                t = val(st.test)
+                if t is _UNK:
+                    raise _NoFold
+                r = run(st.body if t else st.orelse)
                 if r is not None:
                     return r
-            elif isinstance(st, ast.Return) and isinstance(st.value, ast.Dict):
-                for k, v in zip(st.value.keys, st.value.values):
-                    if isinstance(k, ast.Constant) and k.value == 'byteorder':
-                        return ('ret', fold(v, env))
-                raise _NoFold
-            else:
-                raise _NoFold
+                continue
+            if isinstance(st, ast.Return):
+                d = dictval(st.value) if st.value is not None else None
+                if d is None and isinstance(st.value, ast.Name):
+                    d = dicts.get(st.value.id)
+                if d is None or 'byteorder' not in d or d['byteorder'] is _UNK:
+                    raise _NoFold
+                return ('ret', d['byteorder'])
+            raise _NoFold
         return None
     r = run(stmts)
     if r is None:
